@@ -3,8 +3,6 @@ set_option linter.unusedSimpArgs false
 namespace Coercion.Engine
 open Coercion
 
-@[simp] theorem status_beq (a b : Status) : (a == b) = decide (a = b) := by cases a <;> cases b <;> rfl
-
 @[simp] theorem append_evs (a b : Out) : (a ++ b).evs = a.evs ++ b.evs := rfl
 @[simp] theorem append_objs (a b : Out) : (a ++ b).objs = a.objs ++ b.objs := rfl
 @[simp] theorem empty_evs : ({} : Out).evs = [] := rfl
